@@ -188,6 +188,7 @@ def run(ctx, model=None):
     for _k in range(4 if ctx.quick() else 40):
         _an.batch_vs_alone(ctx, _r2.sample(_pool, _r2.randint(2, 5)), ['probabilities'], 'run_games-probabilities-equal-solo-run')
     for k in range(10 if ctx.quick() else 150):
+        check_case(ctx, gen.final_player_game(rng), model)
         check_case(ctx, gen.with_empty_action(gen.free_game(rng), rng), model)
         check_case(ctx, gen.corridor_choice_game(rng), model)
         with impl.forced_debug():
